@@ -528,6 +528,26 @@ def _contiguous(tm, sites):
     return True
 
 
+def g9(rep, tms):
+    r = rep.rule("G9", "repetition needs duplicate mode: a parse step that can run more than once for the same tag "
+                       "(it sits in a loop) executes with MessageParser::with_duplicates(true) in force; in "
+                       "no-duplicates mode the second occurrence is refused without being consumed, which ends the "
+                       "repetition silently (or never ends it)", floor=30)
+    for tm in tms:
+        if tm.g is None:
+            continue
+        for s in tm.g.sites:
+            if not s.loops:
+                continue
+            r["instances"] += 1
+            if getattr(s, "dup", False) is not True:
+                rep.add(Finding("G9", tm.pfn, "%s:%s" % (s.tag, G.short(s.ty)),
+                                "the repeated step for tag %s in %s runs while the parser refuses duplicates: the "
+                                "second :%s: is not consumed, so later occurrences are dropped from an accepted "
+                                "message" % (s.tag, tm.name, s.tag), tm.file, s.ln))
+    return r
+
+
 def detector_letters(F):
     """letters known by detect_variant / detect_variant_optional / peek_field_variant"""
     out = {}
